@@ -37,7 +37,7 @@ def main():
     try:
         demo = os.path.join(mdir, 'demo.py')
         if os.path.exists(demo):
-            d = sh('PYTHONPATH=%s:/tmp/wt/lib:%s/tools/lib /venv/bin/python %s' % (REPO, VERIF, demo))
+            d = sh('PYTHONPATH=%s:%s/tools/lib /venv/bin/python %s' % (REPO, VERIF, demo))
             print('demo on mutated tree: rc=%d' % d.returncode)
         for p in props:
             c = sh('cd %s && /venv/bin/python -m harness.check %s --tier %s' % (VERIF, p, tier))
